@@ -146,9 +146,10 @@ def init(jax=True):
   warnings.filterwarnings('ignore')
   try:
     from absl import logging as absl_logging
-    absl_logging.set_verbosity(absl_logging.ERROR)
+    absl_logging.set_verbosity(absl_logging.FATAL)
     import logging
-    logging.getLogger('absl').setLevel(logging.ERROR)
+    logging.getLogger('absl').setLevel(logging.CRITICAL)
+    absl_logging.set_stderrthreshold('fatal')
   except Exception:  # pylint: disable=broad-except
     pass
   if jax:
